@@ -670,7 +670,9 @@ class IteratorQueue(IterableQueue[_ValueT]):
           ) from e
         except Exception as e:  # pylint: disable=broad-exception-caught
           exhausted = is_stop_iteration(e)
-          if (exhausted and result) or (not exhausted and self.ignore_error):
+          # Flushes what is already dequeued first, the next call raises again.
+          # (An empty batch is never returned: it is not an end of the stream.)
+          if result and (exhausted or self.ignore_error):
             break
           raise e
     with self._enqueue_lock:
